@@ -21,7 +21,7 @@ RULE = ("seeded structured unitaries of size 2-10 (Haar, identity, -identity, pe
         "block-diagonal, permuted block-diagonal, near-permutations with mixing 1e-6..1e-17, real orthogonal, DFT, "
         "heralded circuits) x error models (default; Constant/Gaussian bounded, one-sided, unbounded/TopHat incl. width 0) "
         "x seeds; distinct = (matrix family, size, error-model shape); non-trivial = every case (full post-condition)")
-MANDATORY = ["family:haar", "family:identity", "family:permutation", "family:phased_permutation", "family:block",
+MANDATORY = ["error_model_reconfigured_after_use", "family:haar", "family:identity", "family:permutation", "family:phased_permutation", "family:block",
              "family:near_permutation", "family:dft", "family:orthogonal", "heralded_circuit", "theta_pi_branch",
              "theta_zero_branch", "noisy_error_model", "seed_reproducibility", "phase_near_2pi", "seed_zero_noisy", "reck_object_reused"]
 DECIDING = ["mon.reck_postconditions", "mon.dist_value_checks"]
@@ -295,6 +295,33 @@ def run(ctx):
                         ctx.violation("the same Reck object, circuit and seed gave a different mapped circuit after it "
                                       "had mapped another circuit in between", case=case, mechanism="reck_seed_history",
                                       monitor="driver: seed reproducibility across reuse")
+            if noisy and seed is not None and rng.random() < 0.4:
+                # the error model of a Reck object that has already mapped is reconfigured in place (one attribute is
+                # replaced by a new random distribution); same seed -> same circuit, and the same circuit as a freshly built,
+                # identically configured model gives
+                d_ = itf.dists
+                attr = str(rng.choice(["phase_offset", "phase_offset", "bs_reflectivity", "loss"]))
+                mk = {"phase_offset": lambda: d_.Gaussian(0.0, 0.4) if rng.random() < 0.5 else d_.TopHat(-0.3, 0.3),
+                      "bs_reflectivity": lambda: d_.Gaussian(0.5, 0.05, 0.0, 1.0) if rng.random() < 0.5 else d_.TopHat(0.4, 0.6),
+                      "loss": lambda: d_.Gaussian(0.05, 0.02, 0.0, 1.0) if rng.random() < 0.5 else d_.TopHat(0.0, 0.1)}[attr]
+                setattr(reck.error_model, attr, mk())
+                ctx.bucket("error_model_reconfigured_after_use")
+                case["reconfigured_after_use"] = attr
+                r_a = reck.map(circ, seed=seed)
+                r_b = reck.map(circ, seed=seed)
+                if circmon.spec_digest(r_a._get_circuit_spec()) != circmon.spec_digest(r_b._get_circuit_spec()):
+                    ctx.violation(f"after the used error model's {attr} was replaced, the same seed gives different mapped "
+                                  f"circuits", case=case, mechanism="reck_seed_after_reconfiguration",
+                                  monitor="driver: seed reproducibility across reconfiguration")
+                em_f = itf.ErrorModel()
+                for a3 in ("bs_reflectivity", "loss", "phase_offset"):
+                    setattr(em_f, a3, getattr(reck.error_model, a3))
+                r_f = itf.Reck(em_f).map(circ, seed=seed)
+                if circmon.spec_digest(r_f._get_circuit_spec()) != circmon.spec_digest(r_a._get_circuit_spec()):
+                    ctx.violation(f"after the used error model's {attr} was replaced, a seeded map differs from the one a "
+                                  f"freshly built model with the same three distributions gives", case=case,
+                                  mechanism="reck_seed_after_reconfiguration:fresh_twin",
+                                  monitor="driver: seed reproducibility across reconfiguration")
             if seed is not None:
                 ctx.bucket("seed_reproducibility")
                 if seed == 0 and noisy:
